@@ -101,7 +101,11 @@ def build_world(scn, sched=None, observe=None, faults=True):
     obs = scn.get("observe", True) if observe is None else observe
     lines = []
     tags = []       # parallel: (item_index, role) role in 'cmd' | observer name
+    sig_at = []
     for i, it in enumerate(items):
+        if it[0] == "sigint":
+            sig_at.append(len(lines))       # Ctrl-C at the prompt that would have received the next line
+            continue
         ln = render_item(it)
         lines.append(ln)
         tags.append((i, "cmd"))
@@ -116,6 +120,10 @@ def build_world(scn, sched=None, observe=None, faults=True):
                     tags.append((i, o))
     w["user"] = lines
     w["_tags"] = tags
+    if sig_at:
+        w["sigints"] = sig_at
+    if scn.get("discard_stdout"):
+        w["discard_stdout"] = True
     if faults:
         apply_faults(w, scn.get("faults", []))
     return w
